@@ -3,7 +3,7 @@
    concurrent submitters, any jobs, Release; [reachable W Q s] = s is reached from the initial state by SOME label sequence, so
    every theorem below is about all schedules). *)
 From Coq Require Import List Arith NArith Permutation.
-From TarsV Require Import Conc.Gpool Conc.GpoolProofs.
+From TarsV Require Import Conc.Gpool Conc.GpoolProofs Conc.GpoolLive Conc.GpoolFair Conc.GpoolEventually Conc.GpoolFifo.
 Import ListNotations.
 
 (* no job is handed to a worker twice; what has been handed over is exactly what occupies a worker or has finished *)
@@ -34,16 +34,82 @@ Proof. exact GpoolProofs.submit_only_when_room. Qed.
 Theorem C19_queue_bounded : forall W Q s, reachable W Q s -> length (jobq s) <= Q.
 Proof. exact GpoolProofs.queue_bounded. Qed.
 
-(* progress. Full statement (NOT proved): a pending job can always be brought to completion by steps of the pool and of jobs. *)
-Definition C19_progress_statement : Prop := forall W Q s j, 1 <= W -> reachable W Q s -> rp s = RNot ->
-  In j (jobq s ++ held (dp s)) ->
-  exists ls s', Forall (fun l => internal l = true) ls /\ run W Q s ls = Some s' /\ In j (fin s').
-(* proved part: no deadlock — with a pending job before Release, or with a Release in progress, a step of the pool itself or of
-   a running job (jobs terminate) is always enabled *)
-Theorem C19_progress_partial : forall W Q s, 1 <= W -> reachable W Q s ->
+(* the pool is FIFO: jobs are handed to workers in exactly the order in which their sends completed *)
+Theorem C19_hand_over_fifo : forall W Q s, reachable W Q s -> subm s = started s ++ held (dp s) ++ jobq s.
+Proof. exact GpoolFifo.hand_over_fifo. Qed.
+(* with one worker that order shows in the events: every trace of the transition system passes the check applied to the real traces *)
+Theorem C19_fifo_one_worker_traces : forall Q ls s, run 1 Q (init 1) ls = Some s -> fifo1_ok (trace 1 Q (init 1) ls) = true.
+Proof. exact GpoolFifo.fifo1_traces. Qed.
+
+(* ---------- progress ("every job submitted is executed", "Release ... returns") ---------- *)
+(* no deadlock: with a pending job before Release, or with a Release in progress, a step of the pool itself or of a running job
+   (jobs terminate) is always enabled *)
+Theorem C19_no_deadlock : forall W Q s, 1 <= W -> reachable W Q s ->
   ((rp s = RNot \/ rp s = RCalled) /\ (jobq s <> [] \/ held (dp s) <> []) \/ rp s = RCalled \/ rp s = RSent \/ rp s = RAcked) ->
   exists l s', internal l = true /\ step W Q s l = Some s'.
 Proof. exact GpoolProofs.no_deadlock. Qed.
+(* no livelock: in EVERY execution the number of steps of the pool, of jobs and of Release is bounded by the work present at its
+   start ([measure]: 8 per queued job, ...) plus 8 per completed submit — from any state, reachable or not *)
+Theorem C19_work_bounded : forall W Q ls s s', run W Q s ls = Some s' ->
+  ninternal ls + measure s' <= measure s + 8 * nsubmit ls.
+Proof. exact GpoolLive.work_bounded. Qed.
+(* every job sent into a pool on which Release has not been called can be brought to completion by steps of the pool and of jobs *)
+Theorem C19_progress : forall W Q s j, 1 <= W -> reachable W Q s -> rp s = RNot -> In j (subm s) ->
+  exists ls s', Forall (fun l => internal l = true) ls /\ run W Q s ls = Some s' /\ In j (fin s').
+Proof. exact GpoolLive.progress. Qed.
+(* ... and no schedule avoids it: every run of pool/job steps from such a state has at most [measure s] steps, and when it cannot be
+   extended every job sent has finished, the queue is empty, no worker is occupied and all W workers are registered again *)
+Theorem C19_every_schedule_completes : forall W Q s ls s', 1 <= W -> reachable W Q s -> rp s = RNot ->
+  Forall (fun l => internal l = true) ls -> run W Q s ls = Some s' ->
+  length ls <= measure s /\
+  (quiescent W Q s' -> Permutation (subm s) (fin s') /\ jobq s' = [] /\ occupying (wk s') = [] /\ length (wq s') = W).
+Proof. exact GpoolLive.every_schedule_completes. Qed.
+(* a blocked submitter: the pool makes room for its send by its own steps (for Q = 0: the dispatcher comes back to its select) *)
+Theorem C19_blocked_submit_gets_room : forall W Q s j, 1 <= W -> reachable W Q s -> rp s = RNot -> In j (calling s) ->
+  exists ls s', Forall (fun l => internal l = true) ls /\ run W Q s ls = Some s' /\
+    exists s'', step W Q s' (if Q =? 0 then SubmitH j else Submit j) = Some s''.
+Proof. exact GpoolLive.blocked_submit_gets_room. Qed.
+(* Release returns: once called it can be brought to its return; every run of pool/job steps is bounded and can only stop returned *)
+Theorem C19_release_returns : forall W Q s, 1 <= W -> reachable W Q s -> rp s <> RNot ->
+  (exists ls s', Forall (fun l => internal l = true) ls /\ run W Q s ls = Some s' /\ rp s' = RDone) /\
+  (forall ls s', Forall (fun l => internal l = true) ls -> run W Q s ls = Some s' ->
+     length ls <= measure s /\ (quiescent W Q s' -> rp s' = RDone)).
+Proof. exact GpoolLive.release_returns. Qed.
+
+(* "every job submitted is executed" at full strength: in every INFINITE execution (submitters may go on sending for ever) that
+   is weakly fair to the goroutines of the pool and to running jobs (an internal step enabled at some index is later taken or
+   not enabled) and in which the dispatcher never accepts a Release, every job sent has finished at some later index *)
+Theorem C19_every_job_eventually_runs : forall W Q (σ : nat -> st) (λ : nat -> label),
+  execution W Q σ λ -> (forall n, λ n <> RelCall) -> pre_release (dp (σ 0)) = true -> 1 <= W -> weakly_fair W Q σ λ ->
+  forall j n, In j (subm (σ n)) -> exists m, n <= m /\ In j (fin (σ m)).
+Proof. exact GpoolEventually.eventually_finished. Qed.
+(* the hypotheses are satisfiable for every W >= 1 and Q: a scheduler that runs the pool to quiescence, then lets a submitter go on *)
+Theorem C19_fair_execution_exists : forall W Q, 1 <= W ->
+  execution W Q (sst W Q) (slab W Q) /\ (forall n, slab W Q n <> RelCall) /\ pre_release (dp (sst W Q 0)) = true /\
+  weakly_fair W Q (sst W Q) (slab W Q).
+Proof. exact GpoolEventually.fair_execution_exists. Qed.
+
+(* the ingredients (premises of the weak-fairness rule) for the rank [mu j]: position in the FIFO queue, distance of the
+   dispatcher and the workers from taking it, then the job's own three steps *)
+Theorem C19_rank_zero_iff_finished : forall s j, mu j s = 0 <-> In j (fin s).
+Proof. exact GpoolFair.mu_zero_iff. Qed.
+(* (a) before the dispatcher accepts Release, no step of anybody — in particular no later submit — moves j away from completion *)
+Theorem C19_rank_nonincreasing : forall W Q s l s' j, reachable W Q s -> pre_release (dp s) = true -> In j (subm s) -> l <> RelCall ->
+  step W Q s l = Some s' -> mu j s' <= mu j s.
+Proof. exact GpoolFair.mu_nonincreasing. Qed.
+(* (b) while j has not finished, a step of the pool or of a running job that brings it strictly closer is enabled *)
+Theorem C19_helpful_step_enabled : forall W Q s j, 1 <= W -> reachable W Q s -> pre_release (dp s) = true -> In j (subm s) ->
+  ~ In j (fin s) -> exists l s', internal l = true /\ l <> RelCall /\ step W Q s l = Some s' /\ mu j s' < mu j s.
+Proof. exact GpoolFair.helpful_step_enabled. Qed.
+(* (c) an enabled step of the pool or of a running job stays enabled until it is taken (weak fairness suffices) *)
+Theorem C19_enabled_step_persists : forall W Q s l l' s', pre_release (dp s) = true -> internal l = true -> l <> RelCall ->
+  step W Q s l <> None -> step W Q s l' = Some s' -> l' <> l -> l' <> RelCall -> step W Q s' l <> None.
+Proof. exact GpoolFair.enabled_step_persists. Qed.
+(* finite consequence: an execution (any submits interleaved, no Release accepted) that contains [mu j s] helpful steps has finished j *)
+Theorem C19_helpful_steps_finish : forall W Q ls s s' j, reachable W Q s -> pre_release (dp s) = true -> In j (subm s) ->
+  ~ In RelCall ls -> run W Q s ls = Some s' ->
+  helpful W Q j s ls + mu j s' <= mu j s /\ (mu j s <= helpful W Q j s ls -> In j (fin s')).
+Proof. exact GpoolFair.helpful_steps_finish. Qed.
 
 (* Release: when it has returned every worker has stopped, no job occupies a worker ... *)
 Theorem C19_release : forall W Q s, reachable W Q s -> (rp s = RDone \/ rp s = RAcked) ->
@@ -85,7 +151,21 @@ Print Assumptions C19_parallelism.
 Print Assumptions C19_submit_blocks_only_when_full.
 Print Assumptions C19_submit_only_into_room.
 Print Assumptions C19_queue_bounded.
-Print Assumptions C19_progress_partial.
+Print Assumptions C19_hand_over_fifo.
+Print Assumptions C19_fifo_one_worker_traces.
+Print Assumptions C19_no_deadlock.
+Print Assumptions C19_work_bounded.
+Print Assumptions C19_progress.
+Print Assumptions C19_every_schedule_completes.
+Print Assumptions C19_blocked_submit_gets_room.
+Print Assumptions C19_release_returns.
+Print Assumptions C19_every_job_eventually_runs.
+Print Assumptions C19_fair_execution_exists.
+Print Assumptions C19_rank_zero_iff_finished.
+Print Assumptions C19_rank_nonincreasing.
+Print Assumptions C19_helpful_step_enabled.
+Print Assumptions C19_enabled_step_persists.
+Print Assumptions C19_helpful_steps_finish.
 Print Assumptions C19_release.
 Print Assumptions C19_release_not_while_running.
 Print Assumptions C19_nothing_starts_after_release.
